@@ -84,30 +84,44 @@ def verify(wt, name):
     return 0
 
 
-def run(name, props):
+def run(name, props, inplace=False):
+    """inplace: apply to /repo itself (git apply … git checkout -- .), as the brief describes. Default: a scratch copy of
+    /repo under /var/tmp (VERIF_REPO), which gives the same verdicts without disturbing anything else that reads /repo."""
     d = os.path.join(SEEDED, name)
     m = load_meta(name)
     props = props or [m['property']]
-    rc, out = sh('git -C /repo status --porcelain')
-    if out.strip():
-        print('/repo is not clean:', out)
-        return 1
-    rc, out = sh('git -C /repo apply %s' % os.path.join(d, 'patch.diff'))
+    if inplace:
+        repo = '/repo'
+        rc, out = sh('git -C /repo status --porcelain')
+        if out.strip():
+            print('/repo is not clean:', out)
+            return 1
+        rc, out = sh('git -C /repo apply %s' % os.path.join(d, 'patch.diff'))
+    else:
+        repo = '/var/tmp/seedrun/%s' % name
+        shutil.rmtree(repo, ignore_errors=True)
+        os.makedirs(repo)
+        sh('rsync -a --exclude target --exclude .git /repo/ %s/' % repo)
+        rc, out = sh('patch -p1 -s < %s' % os.path.join(d, 'patch.diff'), cwd=repo)
     if rc != 0:
-        print('patch does not apply to /repo', out)
+        print('patch does not apply', out)
         return 1
     results = m.get('checks', {})
     try:
         for p in props:
             t0 = time.time()
-            rc, out = sh('python3 bin/check %s --tier quick --no-evidence' % p, cwd=ROOT, timeout=7200)
+            rc, out = sh('VERIF_REPO=%s python3 bin/check %s --tier quick --no-evidence' % (repo, p), cwd=ROOT, timeout=7200)
             lines = [l for l in out.split('\n') if re.match(r'(VIOLATION|UNDECIDED|KNOWN-FINDING|INFO|C\d\d tier)', l)]
-            results[p] = {'exit': rc, 'lines': [l[:400] for l in lines][:12], 'wall_s': round(time.time() - t0)}
+            results[p] = {'exit': rc, 'lines': [l[:400] for l in lines][:12], 'wall_s': round(time.time() - t0),
+                          'repo_head': sh('git -C /repo rev-parse --short HEAD')[1].strip()}
             print(name, p, 'exit', rc)
             for l in lines[:8]:
                 print('   ', l[:300])
     finally:
-        sh('git -C /repo checkout -- .')
+        if inplace:
+            sh('git -C /repo checkout -- .')
+        else:
+            shutil.rmtree(repo, ignore_errors=True)
     m['checks'] = results
     m['detected_by'] = [p for p, r in results.items() if r['exit'] == 1]
     save_meta(name, m)
@@ -121,4 +135,5 @@ if __name__ == '__main__':
     elif cmd == 'verify':
         sys.exit(verify(sys.argv[2], sys.argv[3]))
     elif cmd == 'run':
-        sys.exit(run(sys.argv[2], sys.argv[3:]))
+        args = [a for a in sys.argv[3:] if a != '--inplace']
+        sys.exit(run(sys.argv[2], args, inplace='--inplace' in sys.argv))
